@@ -433,3 +433,76 @@ def c02_8(R):
                        "both liveness timers are switched off under {%s} without checking that the TX ring is empty: with peer window 0 and a lost window update every timer is idle and the connection is silent forever" % ", ".join(seg),
                        where=r.where(), instance="both-liveness-timers-off=>ring-empty")
     R.floor("sites turning off both liveness timers", sites, 1)
+
+
+@rule("C02.9", ["C02", "C19"], ["E3"], "the dispatcher registers with the writer before it goes idle on an empty TX ring",
+      "In split_tx_queue_into_segments every return taken under tx_len == 0 (nothing buffered) is preceded by update_optional_waker(UserTxLocked.dispatcher_waker, cx), under the same "
+      "UserTx.locked write guard that the length was read under: poll_write's wake (C02.1) only reaches a dispatcher that registered here - the mechanism behind 'a write on an idle "
+      "connection is transmitted at once'.")
+def c02_9(R):
+    sp = R.body(VS + "::split_tx_queue_into_segments")
+    regs = {t.bb for t in sp.calls() if call_matches(t, ("utils::update_optional_waker",)) and trace(sp, t.args[0]).last_field == "UserTxLocked.dispatcher_waker"}
+    R.floor("registration of UserTxLocked.dispatcher_waker in split_tx_queue_into_segments", len(regs), 1)
+    zero_targets = []
+    for blk in sp.blocks:
+        if blk.cleanup or blk.term.kind != "switch" or blk.idx not in sp.live_blocks():
+            continue
+        c, neg = switch_cond(sp, blk.term)
+        if c.kind == "bin" and c.op in ("Eq", "Ne") and c.b.kind == "const" and c.b.scalar == 0:
+            nm = copied_from(sp, c.a)
+            ta = trace(sp, c.a, through_casts=False)
+            from_slices = False
+            if ta.kind == "rv" and ta.root[1].rv.kind == "bin" and ta.root[1].rv.op.startswith("Add"):
+                from_slices = all((lambda t: t.kind == "call" and (t.root[1].resolved or "").endswith("slice::len"))(trace(sp, o)) for o in ta.root[1].rv.ops)
+            if nm == "tx_len" or from_slices:
+                be = bool_edges(sp, blk.idx)
+                eq_true = (c.op == "Eq") != neg
+                zero_targets.append(be[1] if eq_true else be[0])
+    R.require(len(zero_targets) >= 1, "test of tx_len == 0 in split_tx_queue_into_segments")
+    rets = sp.return_blocks()
+    bad = False
+    for zt_ in zero_targets:
+        # returns reachable from the zero edge before any segmentation work: they must pass the registration
+        ok, _ = must_pass_blocks(sp, rets, regs, start=zt_)
+        if not ok:
+            bad = True
+            path = shortest_path(sp, zt_, rets, removed_blocks=regs)
+            R.fail([sp.name, "idle-return-without-registering(UserTxLocked.dispatcher_waker)"],
+                   "with an empty TX ring the dispatcher can return from segmentation without registering its waker with the writer: the next write wakes nobody and sits in the ring until an unrelated poll",
+                   where=sp.blocks[zt_].term.where(), witness=path_lines(sp, path), instance="idle=>registered-with-writer")
+    if not bad:
+        R.ok("idle=>registered-with-writer", sp.name, "tx_len == 0 => update_optional_waker(dispatcher_waker) before returning")
+    # the length is read and the waker registered under the same write guard (no window for a lost wake)
+    locks = [t for t in sp.calls() if call_matches(t, ("RwLock::write",)) and trace(sp, t.args[0]).last_field == "UserTx.locked"]
+    if locks and all(any(l.bb in sp.dominators().get(r, ()) for l in locks) for r in regs):
+        R.ok("registered-under-lock", sp.name, "registration dominated by user_tx.locked.write()")
+    else:
+        R.fail([sp.name, "registration-not-under(UserTx.locked.write)"], "the dispatcher waker is registered without holding the lock the writer takes: a write can slip between the emptiness test and the registration", where=sp.where(), instance="registered-under-lock")
+
+
+@rule("C02.7", ["C02", "C19"], ["E3"], "the lock-order relation is acyclic and no lock is re-acquired while held",
+      "Over every body of the crate: locks are identified by their field (UserTx.locked / .producer / .consumer, UserRxShared.locked); the guard is live from the lock()/read()/write() call to the "
+      "Drop of the local holding it (moves followed) or mem::drop; a call made while a guard is live contributes every lock its callee (or a closure passed to it) may acquire. The resulting "
+      "held-while-acquiring relation must be irreflexive (parking_lot locks are not re-entrant) and acyclic: a cycle is a writer-vs-dispatcher deadlock no single-task test can show.")
+def c02_7(R):
+    from utpsa.locks import LockGraph
+    F = R.facts
+    G = LockGraph(F)
+    for b in F.bodies():
+        if any(lc for lc in (lock_like(b, it) for it in b.items()) if lc):
+            G.analyse(b)
+    R.floor("lock acquisition sites", G.nlock_sites, 15)
+    R.floor("held-while-acquiring edges", len(G.edges), 3)
+    cyc = G.cycles()
+    for c in cyc:
+        sites = ["%s -> %s at %s (%s)" % (a, b_, G.edges[(a, b_)][1], G.edges[(a, b_)][0].split("::")[-1]) for a, b_ in zip(c, c[1:]) if (a, b_) in G.edges]
+        R.fail(["lock-order-cycle", "->".join(c)], "locks can be acquired in a cyclic order (%s): two tasks taking them from different ends deadlock" % " -> ".join(c), where=G.edges[(c[0], c[1])][1] if (c[0], c[1]) in G.edges else None, witness=sites, instance="lock-order-acyclic")
+    if not cyc:
+        R.ok("lock-order-acyclic", "crate", "edges: " + ", ".join("%s->%s" % e for e in sorted(G.edges)))
+    for (a, b_), (fn, where) in sorted(G.edges.items()):
+        R.ok("lock-edge", "%s -> %s" % (a, b_), "%s at %s" % (fn.split("::")[-1], where), verdict="recorded")
+
+
+def lock_like(b, it):
+    from utpsa.locks import lock_call
+    return lock_call(b, it)
